@@ -100,9 +100,53 @@ class Ctx:
         return out
 
     def add_sites(self, res: Result, sites: Iterable[Site], rename: Optional[str] = None):
+        sites = list(sites)
+        soft = self._dispatch_guarded(sites)
         for s in sites:
             status = {"ok": "ok", "unknown": "unknown", "mismatch": "violation"}[s.verdict]
-            res.add(rename or s.rule, s.func, s.stmt, s.detail, status, s.reason, s.where)
+            reason = s.reason
+            if status == "violation" and id(s) in soft:
+                status = "unknown"
+                reason = f"{s.reason} - for ONE of the classes the receiver may have; the call sits under a test on the type name ({soft[id(s)]}), whose pairing with the receiver's class was not followed"
+            res.add(rename or s.rule, s.func, s.stmt, s.detail, status, reason, s.where)
+
+    def _dispatch_guarded(self, sites):
+        """C-SIG / K-ARG mismatches of a call whose receiver may be one of several container classes, where the call is
+        control-dependent on a test that compares something with a container class name / uses isinstance / type(): the
+        dispatch is there, only spelled in a way the kind engine does not narrow on (a boolean local, a helper that returns
+        the class name).  {id(site): text of the guarding test}"""
+        import ast as _ast
+
+        from . import tables as T
+        from .model import norm as _norm
+
+        groups = {}
+        for s in sites:
+            if s.rule in ("C-SIG", "K-ARG") and s.node_id:
+                groups.setdefault((s.qual, s.node_id), []).append(s)
+        out = {}
+        for (qual, nid), grp in groups.items():
+            classes = {c for s in grp for c in T.CONTAINERS if (c + ".") in s.detail}
+            if len(classes) < 2 or not any(s.verdict == "mismatch" for s in grp):
+                continue
+            fi = self.prog.functions.get(qual)
+            if fi is None:
+                continue
+            v = self.view(fi)
+            node = next((n for n in _ast.walk(fi.node) if id(n) == nid), None)
+            if node is None:
+                continue
+            guard = None
+            for iff in v.enclosing_all(node, (_ast.If,)):
+                t = v.inline(iff.test)
+                for x in _ast.walk(t):
+                    if (isinstance(x, _ast.Constant) and isinstance(x.value, str) and any(c in x.value for c in T.CONTAINERS)) or (isinstance(x, _ast.Call) and _norm(x.func) in ("isinstance", "type")) or (isinstance(x, _ast.Attribute) and x.attr in ("__class__", "__name__")):
+                        guard = _norm(iff.test)[:60]
+            if guard:
+                for s in grp:
+                    if s.verdict == "mismatch":
+                        out[id(s)] = guard
+        return out
 
     def stats(self) -> dict:
         st = self.prog.stats()
